@@ -30,7 +30,7 @@ CHECKS = [
          text="MaxRestarts in {0,1,2} with the exhausting panic in a first batch, in Started and in the replay of the restart buffer, with and without children; replayed on the real engine; process death of the harness is a recorded outcome.",
          note="as C04",
          ref="4/C06"),
-    dict(id="C07", engine="actor-scenario", technique="TLC exhaustive on Actor.tla + B-scenario replay; histories judged by TLC (DoneAfterStop, Drained, AllDone, KindsKnown) with TLA+-evaluated known-finding signatures",
+    dict(id="C07", engine="actor-scenario", technique="TLC exhaustive on Actor.tla + B-scenario replay; histories judged by TLC (DoneAfterStop, Drained, AllDone, KindsKnown) with TLA+-evaluated known-finding signatures; TLC exhaustive on StopWait.tla (lock level: concurrent Stop / Poison callers registering while the process stops) + B-graph edge-cover replay through gate shims",
          text="Stop/Poison tokens racing sends, crashes, restarts and parent shutdown; stop contexts are polled at every step and inside every delivery; the recorded history must satisfy done => Stopped handled and unregistered, drained-before-done for the token acted on, every token done at quiescence, pills never visible. The strict predicates are evaluated as well: they may fail only with the signatures listed in KNOWN_FINDINGS.txt.",
          note="as C04; 'never done' is decided at quiescence of the scenario (no gate pending, settle interval elapsed)",
          ref="4/C07"),
@@ -116,7 +116,7 @@ def main():
         "setup_cmd": "./check setup",
         "hooks": {
             "guard": "verif",
-            "enable": "go build -tags verif -overlay <generated overlay.json>: accessor files (harness/overlay_pkg: remote/verif_wire.go for every build; harness/overlay_opt: actor/verif_quiet.go for the C20 harness only) and gate shims (generated from the working tree's sources) are ADDED at build time from /verif/harness; no file of /repo is modified for instrumentation",
+            "enable": "go build -tags verif -overlay <generated overlay.json>: accessor files (harness/overlay_pkg: remote/verif_wire.go for every build; harness/overlay_opt: actor/verif_quiet.go for the C20 harness only, actor/verif_stopwait.go for the C07 lock-level harness only) and gate shims (generated from the working tree's sources) are ADDED at build time from /verif/harness; no file of /repo is modified for instrumentation",
             "baseline_off_cmd": "cd /repo && go test -vet=off -count=1 -timeout 25m ./...",
             "source_commits": [],
             "add_only": True,
@@ -136,6 +136,8 @@ def main():
              "kind_free_text": "operation sequences of RemoteLink.tla replayed on two real engines over loopback TCP (B-scenario)"},
             {"name": "wire-table", "path": "harness/cmd/wiretable", "serves_properties": ["C15", "C16"],
              "kind_free_text": "cases enumerated by TLC from Wire.tla executed on the real stream writer / reader (B-table)"},
+            {"name": "stop-conc", "path": "harness/cmd/stopconc", "serves_properties": ["C07"],
+             "kind_free_text": "TLC state graph of StopWait.tla stepped through the shimmed process.go (stop-waiter registration and release), outcome judged by the property (B-graph)"},
             {"name": "route-table", "path": "harness/cmd/routetable", "serves_properties": ["C01"],
              "kind_free_text": "entries x scripts enumerated by TLC from Route.tla executed on a real engine, per-actor deliveries / dead letters / Result() compared (B-table)"},
             {"name": "ring-table", "path": "harness/cmd/ringtable", "serves_properties": ["C14"],
